@@ -128,6 +128,41 @@ func main() {
 	}
 	sort.Strings(callers)
 	o.def("process_job_callers", "list string", cstrs(callers))
+	// ---- queryCache.get / set / gc are ONE critical section each: the body starts with  c.mu.Lock(); defer c.mu.Unlock()
+	// and never touches the mutex again (what makes ACheck / AEnd's cache.set / AGc atomic actions of the transition system)
+	var crit []string
+	for _, name := range []string{"gc", "get", "set"} {
+		fd := findFunc(pkg, "queryCache", name)
+		if fd == nil || fd.Body == nil {
+			fatal("queryCache.%s not found", name)
+		}
+		recv := ""
+		if fd.Recv != nil && len(fd.Recv.List) == 1 && len(fd.Recv.List[0].Names) == 1 {
+			recv = fd.Recv.List[0].Names[0].Name
+		}
+		lockSrc, unlockSrc := recv+".mu.Lock()", recv+".mu.Unlock()"
+		single := len(fd.Body.List) >= 2
+		if single {
+			es, ok := fd.Body.List[0].(*ast.ExprStmt)
+			single = ok && src(es.X) == lockSrc
+		}
+		if single {
+			ds, ok := fd.Body.List[1].(*ast.DeferStmt)
+			single = ok && src(ds.Call) == unlockSrc
+		}
+		muCalls := 0
+		ast.Inspect(fd.Body, func(x ast.Node) bool {
+			if ce, ok := x.(*ast.CallExpr); ok && strings.HasPrefix(src(ce.Fun), recv+".mu.") {
+				muCalls++
+			}
+			return true
+		})
+		if muCalls == 0 {
+			fatal("queryCache.%s: no use of the cache mutex found (unknown locking scheme)", name)
+		}
+		crit = append(crit, fmt.Sprintf("(%s, %s)", cs(name), cbool(single && muCalls == 2)))
+	}
+	o.def("cache_single_critical_section", "list (string * bool)", clist(crit))
 	// ... and which functions start that caller as a goroutine per worker (StartWorkers: `go queryWorker(...)` inside a counted loop)
 	o.write(*outPath, *jsonPath)
 }
